@@ -87,6 +87,9 @@ func verifResolutionRound(r *Resolution) *Resolution {
 //@ ensures[C17.named.compiler] result != nil && result.parent == c && result.name == name && namedOK(result)
 
 //@ func symbolTableFromDefinition
+//@ props C05
+//@ commute 1
+//@ expand symbolFromDefinition
 //@ trusted
 //@ modcomps H_compiler_Symbol E_Pcompiler_Symbol E_Pcompiler_Resolution MD_string_ MV_string_ H_compiler_Resolution_
 
@@ -101,3 +104,23 @@ func verifResolutionRound(r *Resolution) *Resolution {
 //@ invariant[named] 2: forall(k, 0, len(codes), namedOK(codes[k]))
 //@ invariant 3: true
 //@ ensures[C17.named] true
+
+// ---- C05: map iteration on the way to observable output is order independent -------------------------------
+//@ func definitionFromSymbolTable
+//@ props C05
+//@ assume[symtab.byname] forallT(k, string, haskey(table.symbolsByName, k) ==> table.symbolsByName[k] != nil && table.symbolsByName[k].name == k)
+//@ expand definitionFromSymbol
+//@ commute 1
+
+// Dispositions of the map-range loops of package compiler:
+//   commute-proved: definitionFromSymbolTable#1 symbolTableFromDefinition#1
+//   compileFunc#1 (parameter defaults): which "unsupported default value" error is reported first depends on the
+//   order; on success the loop fills defaults[index] per key (order independent) - undecided here (calls fmt).
+//   compileMap no longer ranges over a Go map (KF-11 fixed): it iterates ast.(*Map).SortedKeys().
+//@ scan[C05.maploops.compiler] C05 maprange compiler: definitionFromSymbolTable#1 symbolTableFromDefinition#1 (*Compiler).compileFunc#1
+
+// compiler.New inserts the global names in sorted order (mechanism "global names sorted before symbol
+// insertion"): the insertion loop runs over a sorted slice whatever order the caller supplied.
+//@ func New
+//@ props C05
+//@ invariant[C05.new.sorted] 2: c != nil && forall(i, 0, len(c.globalNames), forall(j, i, len(c.globalNames), c.globalNames[i] <= c.globalNames[j]))
